@@ -23,7 +23,8 @@ MODELS = GD.ellipsoidmodels()
 
 
 def FUNCTIONS():
-    return [GD.geodetic2cart, GD.cart2geodetic, GD.geocentric2cart, GD.cart2geocentric, GD.geodetic2geocentric,
+    return [GD.geocentricposlos2cart, GD.cartposlos2geocentric, GD._broadcast,
+            GD.geodetic2cart, GD.cart2geodetic, GD.geocentric2cart, GD.cart2geocentric, GD.geodetic2geocentric,
             GD.geocentric2geodetic, GD.ellipsoid_r_geodetic, GD.ellipsoid_r_geocentric, GD.great_circle_distance,
             GD.tunnel_distance, GD.sind, GD.cosd]
 
@@ -385,6 +386,89 @@ def k_fixed(ctx):
               detail="tan(B_new) == tan(lat), both in (-90, 90) degrees")
 
 
+# ---- K4: position + line of sight ---------------------------------------------------------------------
+def _pl_inputs(ctx, side):
+    """r > 0, |lat| <= 87.2, |lon| <= 179.88, 0.23 <= za <= 179.77, 0.23 <= |aa| <= 179.77 degrees
+    (t = tan(angle / 4) bounded by rationals; the poles, the zenith / nadir directions and the exact
+    north / south azimuths are the code's special branches and outside this kernel)"""
+    from fractions import Fraction as Fr
+    if ctx.sym:
+        lat = AG.angle(ctx, "lat", "deg", t_lo=Fr(-2, 5), t_hi=Fr(2, 5))
+        lon = AG.angle(ctx, "lon", "deg", t_lo=Fr(-999, 1000), t_hi=Fr(999, 1000))
+        za = AG.angle(ctx, "za", "deg", t_lo=Fr(1, 1000), t_hi=Fr(999, 1000))
+        if side == "east":
+            aa = AG.angle(ctx, "aa", "deg", t_lo=Fr(1, 1000), t_hi=Fr(999, 1000))
+        else:
+            aa = AG.angle(ctx, "aa", "deg", t_lo=Fr(-999, 1000), t_hi=Fr(-1, 1000))
+    else:
+        lat, lon, za, aa = [_angle(ctx, n) for n in ("lat", "lon", "za", "aa")]
+        if not (abs(lat) <= 87.3 and abs(lon) <= 179.9 and 0.2 <= za <= 179.9 and 0.2 <= abs(aa) <= 179.9):
+            raise core.Infeasible()
+    r = _real(ctx, "r", lo=0, lo_open=True)
+    return r, lat, lon, za, aa
+
+
+def _frame(ctx, lat, lon):
+    """local unit vectors: up, north, east"""
+    sl, cl, so, co = _sin(ctx, lat), _cos(ctx, lat), _sin(ctx, lon), _cos(ctx, lon)
+    return (cl * co, cl * so, sl), (-sl * co, -sl * so, cl), (-so, co, 0)
+
+
+@harness("C07.poslos", cases=lambda tier: ["east", "west"],
+         expect=lambda c: ["forward-is-the-local-frame-decomposition", "inverse-returns-the-position",
+                           "inverse-returns-zenith-and-azimuth"])
+def k_poslos(ctx):
+    """geocentricposlos2cart puts the point at r e_up and the line of sight at
+    cos(za) e_up + sin(za) cos(aa) e_north + sin(za) sin(aa) e_east; cartposlos2geocentric, run on that
+    output, returns r, lat, lon, za, aa again (as the *same* angles: every arcsin / arccos / arctan2 it
+    takes is recognised as the inverse of an identical sine / cosine of an input angle in its principal
+    range)."""
+    from symx import ratfun
+    r, lat, lon, za, aa = _pl_inputs(ctx, ctx.case)
+    up, north, east = _frame(ctx, lat, lon)
+    cz, sz, ca, sa = _cos(ctx, za), _sin(ctx, za), _cos(ctx, aa), _sin(ctx, aa)
+    want_d = [cz * u + sz * ca * n + sz * sa * e for u, n, e in zip(up, north, east)]
+    want_p = [r * u for u in up]
+    if not ctx.sym:
+        x, y, z, dx, dy, dz = [float(v[0]) for v in GD.geocentricposlos2cart(r, lat, lon, za, aa)]
+        ctx.check("forward-is-the-local-frame-decomposition",
+                  all(abs(g - w) <= 1e-9 * max(1.0, abs(w)) for g, w in zip((x, y, z, dx, dy, dz), want_p + want_d)))
+        r2, lat2, lon2, za2, aa2 = [float(v[0]) for v in GD.cartposlos2geocentric(x, y, z, dx, dy, dz)]
+        ctx.check("inverse-returns-the-position", abs(r2 - r) <= 1e-9 * r and abs(lat2 - lat) < 1e-7 and abs(lon2 - lon) < 1e-7)
+        ctx.check("inverse-returns-zenith-and-azimuth", abs(za2 - za) < 1e-6 and abs(aa2 - aa) < 1e-5,
+                  detail="za %r -> %r, aa %r -> %r" % (za, za2, aa, aa2))
+        return
+    AG.ANGLE_HINTS[:] = [lat, lon, za, aa, -aa]
+    ratfun.SQRT_HINTS[:] = [r, Q.of(1)]
+    # proof hints for the sign decisions (used only where identically equal, see ratfun.by_hints)
+    ratfun.VALUE_HINTS[:] = [cz, sz * ca / r, sz * sa / (r * lat.cos()), Q.of(r)]
+    try:
+        with _env(ctx):
+            out = GD.geocentricposlos2cart(r, lat, lon, za, aa)
+            ctx.check("forward-is-the-local-frame-decomposition", all(np.shape(o) == (1,) for o in out))
+            x, y, z, dx, dy, dz = [o[0] for o in out]
+            fine = True
+            for g, w in zip((x, y, z, dx, dy, dz), want_p + want_d):
+                eq = poly_eq(g, w)
+                fine = fine and bool(ratfun.value_true(eq))
+                ctx.check("forward-is-the-local-frame-decomposition", eq)
+            if not fine:
+                return          # the inverse is decided on the frame decomposition only (no hint would match)
+            back = GD.cartposlos2geocentric(x, y, z, dx, dy, dz)
+    finally:
+        AG.ANGLE_HINTS[:] = []
+        ratfun.SQRT_HINTS[:] = []
+        ratfun.VALUE_HINTS[:] = []
+    r2, lat2, lon2, za2, aa2 = [b[0] for b in back]
+
+    def same(a, b):
+        return isinstance(a, AG.Ang) and a.coef == b.coef and a.unit == b.unit
+    ctx.check("inverse-returns-the-position", poly_eq(r2, r))
+    ctx.check("inverse-returns-the-position", same(lat2, lat) and same(lon2, lon), detail="%r %r" % (lat2, lon2))
+    ctx.check("inverse-returns-zenith-and-azimuth", same(za2, za), detail="zenith %r" % (za2,))
+    ctx.check("inverse-returns-zenith-and-azimuth", same(aa2, aa), detail="azimuth %r" % (aa2,))
+
+
 def conformance(tier):
     """no NaN / exception inside the stated domain for the six real ellipsoid models (the symbolic
     runs stay in the real domain by assumption) and the documented accuracy of the round trip"""
@@ -407,18 +491,25 @@ def conformance(tier):
 
 
 PLAN = {
-    "quick": {"harnesses": ["C07.radius", "C07.geodetic-definition", "C07.spherical-roundtrip", "C07.spherical-geodetic", "C07.composed", "C07.distances", "C07.fixed-point"],
+    "quick": {"harnesses": ["C07.radius", "C07.geodetic-definition", "C07.spherical-roundtrip", "C07.spherical-geodetic", "C07.composed", "C07.distances", "C07.fixed-point", "C07.poslos"],
               "opts": {"query_timeout_ms": 30000}},
-    "thorough": {"harnesses": ["C07.radius", "C07.geodetic-definition", "C07.spherical-roundtrip", "C07.spherical-geodetic", "C07.composed", "C07.distances", "C07.fixed-point"],
+    "thorough": {"harnesses": ["C07.radius", "C07.geodetic-definition", "C07.spherical-roundtrip", "C07.spherical-geodetic", "C07.composed", "C07.distances", "C07.fixed-point", "C07.poslos"],
                  "opts": {"query_timeout_ms": 120000}},
 }
-BOUNDS = {"all": "scalar arguments; every latitude with cos(lat) > 0, every longitude, every height in [-10 km, 1000 km], every radius > 0; all six "
+BOUNDS = {"position + line of sight": "every r > 0, |lat| <= 87.2, |lon| <= 179.88, 0.23 <= za <= 179.77, 0.23 <= |aa| <= 179.77 degrees "
+                                     "(rational bounds on tan(angle / 4)); eastward and westward azimuths",
+          "all": "scalar arguments; every latitude with cos(lat) > 0, every longitude, every height in [-10 km, 1000 km], every radius > 0; all six "
                  "ellipsoid models (constants as the decimal literals written in the source); point pairs for the distances"}
 OUTSIDE = ["everything that is a statement about doubles: the 1 cm / 1e-7 degree accuracy, convergence and termination of the cart2geodetic "
            "iteration (its fixed point is decided: one pass of the real loop body from the true latitude returns it)", "the triangle inequality (needs arc lengths, not their sines)",
-           "position + line-of-sight conversions (cartposlos2geocentric / geocentricposlos2cart)", "array broadcasting",
+           "position + line-of-sight conversions at the poles, for zenith / nadir looking directions, for azimuths of exactly 0 / 180 degrees and "
+           "with the optional lat0 / lon0 / za0 / aa0 / ppc arguments", "array broadcasting beyond shape (1,)",
            "asind and the other degree helpers"]
 STUBS = ["exact angle algebra: angles are integer combinations of half-angle atoms with s^2 + c^2 = 1; sin / cos expand to polynomials; "
          "arcsin / arctan / arctan2 introduce fresh atoms with their defining equations and principal range; deg2rad / rad2deg are unit tags",
-         "sqrt -> fresh non-negative root"]
+         "sqrt -> fresh non-negative root",
+         "recognition rules (identities decided by normal form): arcsin(sin X) = X, arccos(cos X) = X, arctan2(rho sin X, rho cos X) = X for a "
+         "harness-named angle X whose range lies in the principal range (rho > 0 decided by z3); sqrt(h^2) = h for a named h >= 0; a value "
+         "identically equal to a named simple form is replaced by it before its sign is decided",
+         "comparisons of an angle with a constant are settled by the angle's range (input bounds / principal ranges), else the path aborts"]
 ASSUMPTIONS = ["exact real arithmetic", "|lat| < 90 degrees"]
